@@ -4,6 +4,7 @@ import (
 	"errors"
 	"fmt"
 
+	"github.com/nspcc-dev/neofs-node/internal/verifhook"
 	apistatus "github.com/nspcc-dev/neofs-sdk-go/client/status"
 	"github.com/nspcc-dev/neofs-sdk-go/object"
 	"go.uber.org/zap"
@@ -56,6 +57,7 @@ func (s *Shard) Put(obj *object.Object, objBin []byte) error {
 		}
 		logOp(s.log, putOp, addr)
 	}
+	verifhook.Point("shard.put.data")
 
 	if !m.NoMetabase() {
 		diff, metaErr := s.metaBase.PutCounted(obj)
@@ -79,6 +81,7 @@ func (s *Shard) Put(obj *object.Object, objBin []byte) error {
 			// since the object has been successfully written to BlobStor
 			return fmt.Errorf("could not put object to metabase: %w", metaErr)
 		}
+		verifhook.Point("shard.put.meta")
 
 		s.addObjectCounter(physicalObjType, diff.Phy)
 		s.addObjectCounter(rootObjType, diff.Root)
